@@ -75,7 +75,8 @@ def rand_case(rng, kws):
             out.append(rng.choice([" ", "\t", "  "]))
         if rng.chance(2, 3):
             out.append(rng.choice([" ", " ", "\t", nl(), ""]))
-    return "".join(out)
+    # one text in forty starts with a byte order mark (a UTF-8 file with BOM, read lossily, keeps it as U+FEFF)
+    return ("\ufeff" if rng.chance(1, 40) else "") + "".join(out)
 
 
 def exhaustive(n):
